@@ -349,7 +349,9 @@ func (x *Exec) freshVar(kind string, s Sort) *Term {
 // fresh auxiliary variable that is not a replay input (stub outputs)
 func (x *Exec) auxVar(s Sort) *Term {
 	x.nvars++
-	return x.tb.Var(fmt.Sprintf("aux%d_%d_%s", len(x.inputs), x.nvars, s.tag()), s)
+	t := x.tb.Var(fmt.Sprintf("aux%d_%d_%s", len(x.inputs), x.nvars, s.tag()), s)
+	x.auxVars = append(x.auxVars, t)
+	return t
 }
 
 // runePred turns a total predicate on runes into a Bool term over a symbolic rune, from
